@@ -11,9 +11,9 @@ import (
 	"os"
 	"strings"
 
+	"github.com/trustbloc/sidetree-go/pkg/api/protocol"
 	"github.com/trustbloc/sidetree-go/pkg/document"
 	"github.com/trustbloc/sidetree-go/pkg/patch"
-	"github.com/trustbloc/sidetree-go/pkg/api/protocol"
 	"github.com/trustbloc/sidetree-go/pkg/versions/1_0/doccomposer"
 	"github.com/trustbloc/sidetree-go/pkg/versions/1_0/doctransformer/didtransformer"
 	"github.com/trustbloc/sidetree-go/pkg/versions/1_0/model"
